@@ -3,6 +3,7 @@ From Coq Require Import QArith Lqa List Bool ZArith Lia.
 Require Import JF.Base.QInterval JF.Model.Lifting JF.Model.Walker JF.Proofs.LiftingProofs.
 Import ListNotations.
 Open Scope Q_scope.
+Local Opaque Qred.
 
 (** ** vocabulary *)
 Definition rsum (items : list witem) : Q := qsum (map w_rate items).
@@ -189,13 +190,15 @@ Proof.
   assert (Hge' : all_ge mean large') by (intros y Hy; apply Hge; simpl; auto).
   unfold rsum in Hsum. simpl in Hsum. rewrite !qlen_cons in Hsum.
   fold (rsum small') in Hsum. fold (rsum large') in Hsum.
-  set (row := RPair s (mkW (w_id l) (mean - w_rate s))).
-  set (l2 := mkW (w_id l) (w_rate l - (mean - w_rate s))).
+  assert (R1 := Qred_correct (mean - w_rate s)).
+  assert (R2 := Qred_correct (w_rate l - (mean - w_rate s))).
+  set (row := RPair s (mkW (w_id l) (Qred (mean - w_rate s)))).
+  set (l2 := mkW (w_id l) (Qred (w_rate l - (mean - w_rate s)))).
   assert (Hrow : rows_ok mean (row :: acc)).
-  { intros r [<- | Hr]; auto. simpl. repeat split; auto; reflexivity. }
+  { intros r [<- | Hr]; auto. simpl. repeat split; auto. }
   assert (Hshare : forall i, share i row + ishare i l2 == ishare i s + ishare i l).
   { intros i. unfold row, l2, share, ishare. simpl. destruct (Nat.eqb (w_id l) i); lra. }
-  destruct (Qlt_bool (w_rate l - (mean - w_rate s)) mean) eqn:E.
+  destruct (Qlt_bool (Qred (w_rate l - (mean - w_rate s))) mean) eqn:E.
   - apply Qlt_bool_iff in E.
     destruct (IH mean (l2 :: small') large' (row :: acc)) as [tbl [T1 [T2 [T3 T4]]]]; auto.
     + simpl in *. lia.
@@ -302,14 +305,14 @@ Proof. unfold total_rate, py_sum. rewrite fold_left_qsum. lra. Qed.
 
 Lemma mean_times_len rs : rs <> [] -> mean_rate rs * qlen rs == qsum rs.
 Proof.
-  intros H. unfold mean_rate. rewrite total_rate_qsum. field.
+  intros H. unfold mean_rate. rewrite Qred_correct, total_rate_qsum. field.
   assert (K := qlen_pos rs H). lra.
 Qed.
 
 Lemma mean_pos rs : 0 < qsum rs -> 0 < mean_rate rs.
 Proof.
   intros H. assert (Hne : rs <> []) by (intros ->; simpl in H; lra).
-  assert (K := qlen_pos rs Hne). unfold mean_rate. rewrite total_rate_qsum.
+  assert (K := qlen_pos rs Hne). unfold mean_rate. rewrite Qred_correct, total_rate_qsum.
   unfold Qdiv. apply Qmult_lt_0_compat; auto. apply Qinv_lt_0_compat; auto.
 Qed.
 
